@@ -702,6 +702,14 @@ class Interp:
         check_inv(0, "entry")
         # havoc
         modified = spec.modifies if spec.modifies is not None else {n_: None for n_ in assigned_names(s.body)}
+        elem_maps = {}
+        for name in modified:
+            try:
+                cur = env.lookup(name)
+            except KeyError:
+                continue
+            if isinstance(cur, SSeq):
+                elem_maps[name] = (cur, cur.elem)
         for name, typ in modified.items():
             if is_for and isinstance(s.target, ast.Name) and name == s.target.id:
                 continue
@@ -745,6 +753,9 @@ class Interp:
             return  # continue after the loop with the current state
         except ContinueSig:
             pass
+        for name, (seqobj, elem0) in elem_maps.items():
+            if env.lookup(name) is not seqobj or seqobj.elem is not elem0:
+                raise PyvcError(f"loop {ordinal} rebinds or reorders list {name}: its loop contract must give a type for it")
         check_inv(arith("+", idx, 1) if is_for else None, "preserved")
         if measure0 is not None:
             m1 = self.eval_spec(spec.decreases, specenv)
@@ -988,7 +999,40 @@ class Interp:
 
         rec(0, env)
 
+    def _symbolic_comp(self, n, env):
+        """Filter comprehension over a symbolic-length sequence: [x for x in S if c(x)]."""
+        if len(n.generators) != 1:
+            return None
+        g = n.generators[0]
+        src = self.eval(g.iter, env)
+        if not (isinstance(src, SSeq) and not isinstance(src.length, int)):
+            return ("concrete", src)
+        if not (isinstance(g.target, ast.Name) and isinstance(n.elt, ast.Name) and n.elt.id == g.target.id):
+            raise PyvcError(f"comprehension over a symbolic sequence must be a pure filter (line {n.lineno})")
+
+        def cond(x):
+            e2 = Env(env.module, env)
+            e2.vars[g.target.id] = x
+            vals = [self.truth(self.eval(c, e2)) for c in g.ifs]
+            return sv_and(*vals) if vals else True
+
+        return ("symbolic", self.bm.symbolic_filter(self, src, cond))
+
     def ex_ListComp(self, n, env):
+        if len(n.generators) == 1 and not self.in_spec:
+            r = self._symbolic_comp(n, env)
+            if r is not None and r[0] == "symbolic":
+                return r[1]
+            if r is not None:
+                # source already evaluated: iterate it concretely
+                g = n.generators[0]
+                out = []
+                for x in self.iterate(r[1]):
+                    e2 = Env(env.module, env)
+                    self.assign_target(g.target, x, e2)
+                    if all(self.decide(self.eval(c, e2)) for c in g.ifs):
+                        out.append(self.eval(n.elt, e2))
+                return PList(out)
         out = []
         self._comp(n, env, lambda e: out.append(self.eval(n.elt, e)))
         return PList(out)
